@@ -22,7 +22,8 @@ GETTER_RANGES = {
 
 
 def in_scope(fn):
-    return any(fn.file == s or (s.endswith("/") and fn.file.startswith(s)) for s in SCOPE_FILES)
+    return any(fn.file == fn.prog.file_now(s) or (s.endswith("/") and fn.file.startswith(s))
+               for s in SCOPE_FILES)
 
 
 def strip_widen(e):
